@@ -19,6 +19,7 @@ RULE = (
     '; pass 5: the objective called with a call-time noise= keyword (fixed-noise likelihoods); registered added loss terms on a direct child, the kernel, ModuleList and ModuleDict members; gradient tolerance follows cond(K+S)'
     "; pass 6: heteroskedastic-noise objective (value and gradients incl. the noise GP's parameters); SGPR collapsed bound under homoskedastic / fixed / fixed+learned noise (shared with C09)"
     "; pass 8: objectives handed a likelihood object other than the model's own (other noise level, fixed noise, a deep copy scored with the original's likelihood)"
+    "; pass 9: the objective of a model obtained through get_fantasy_model (Gaussian, fixed, fixed + learned noise): value and gradients against the dense density of the concatenated data"
 )
 REQUIRED = ["mll_value", "mll_grad", "added_terms_enumerated", "loo_value", "priors_enumerated", "sum_mll_is_mean", "mll_value_stochastic"]
 ASSUMPTIONS = [
